@@ -7,6 +7,7 @@ from ..model import norm, head, walk_no_nested, AnalysisError, FuncInfo, enclosi
 from ..cfg import cfg_of
 from ..q import (find, match, const, try_const, only_via, tests, stmt_nodes, one, fmt, cfg_node_for, calls, le_edge, edges_where)
 from ..core import key
+from ..fields import field_reads
 
 EXPLANATION = (
     'R1 the four fragmenters (SNEP client request, SNEP server response, handover client, handover server) cut the message '
@@ -144,7 +145,8 @@ def rule_oversize(report, prog):
             report.check(okk, 'C06-R3', key(g.qname, 'oversize request answered with Reject (10 FF) and dropped'), g.loc(t.ast),
                          'oversize request is not answered with the Reject response')
     # length comes from the header of the first fragment
-    report.check(bool(find(g.node, "version, length = struct.unpack_from('>BxL', data)")), 'C06-R3',
+    fr = field_reads(g.node)
+    report.check(fr.get('length') == [('data', 2, 4, 'be')] and fr.get('version') == [('data', 0, 1, 'be')], 'C06-R3',
                  key(g.qname, 'length is the header field of the first fragment'), g.loc(), 'header parse changed')
     r = prog.func('nfc.snep.client.recv_response')
     rc = cfg_of(r)
@@ -177,7 +179,7 @@ def rule_headers(report, prog):
     report.check(okk, 'C06-R4', key(c.qname, 'PUT header: version 10h, code 02h, length = len(octets)'), c.loc(), 'PUT header changed')
     p = prog.func('nfc.snep.server.SnepServer.process_snep_request')
     okk = bool(find(p.node, 'octets = request_data[6:]')) and bool(find(p.node, 'octets = request_data[10:]')) and \
-        bool(find(p.node, "acceptable_length = struct.unpack('>L', request_data[6:10])[0]")) and \
+        field_reads(p.node).get('acceptable_length') == [('request_data', 6, 4, 'be')] and \
         struct.calcsize('>BBL') == 6 and struct.calcsize('>BBLL') == 10 and struct.calcsize('>BxL') == 6
     report.check(okk, 'C06-R4', key(p.qname, 'payload offsets 6 (PUT) / 10 (GET) match the header sizes'), p.loc(), 'payload offsets changed')
     disp = {norm(i.test) for i in ast.walk(p.node) if isinstance(i, ast.If) and 'request_data[1]' in norm(i.test)}
